@@ -38,6 +38,7 @@ type CallRec struct {
 	Meta    peers.Meta
 	HasMeta bool
 	Limit   time.Duration // min(deadline, cancel)
+	Both    bool          // a message and an error were returned together
 }
 
 type dialRec struct {
@@ -200,6 +201,7 @@ func RunXport(t *testing.T, p *plan.Plan, keepLog int) *Result {
 							cr.Err = "error"
 						}
 					}
+					cr.Both = m != nil && err != nil
 					if m != nil {
 						rm, perr := dnsToRef(m)
 						if perr != nil {
@@ -392,6 +394,17 @@ func runExhaust(h *XHistory, u upstream.Upstream) {
 // ---- oracles ----
 
 func checkXport(h *XHistory) {
+	// "returns - with a reply or an error": a call that hands back both has
+	// not told its caller the outcome (callers test the error first).
+	for _, c := range h.Calls {
+		if c.Both && c.C.Up < len(h.XP.Upstreams) {
+			prop := "C14"
+			if h.XP.Upstreams[c.C.Up].Kind == "udp" {
+				prop = "C16" // the TCP leg of a truncated UDP reply is the only retry path there
+			}
+			h.S.Fail(prop, "reply-and-error", "call %d (upstream %s, token %s) returned a message together with an error: %s", c.C.Idx, h.XP.Upstreams[c.C.Up].Tag, c.C.Token, c.Err)
+		}
+	}
 	checkC05(h)
 	checkC06(h)
 	checkC14(h)
@@ -791,7 +804,13 @@ func checkC16(h *XHistory) {
 			// socket afterwards was not received at all
 			disturbed := false
 			for _, r := range u.Replies {
-				if r.Conn == first.Conn && r.Kind == "garbage" && r.At >= c.Start && r.At <= first.At+us(h.XP.Net.UpLatUs[1]) {
+				if r.Conn == first.Conn && r.Kind == "garbage" && r.At+us(h.XP.Net.UpLatUs[1]) >= c.Start && r.At <= first.At+us(h.XP.Net.UpLatUs[1]) {
+					disturbed = true
+				}
+			}
+			if vnet.W != nil {
+				// (the socket the reply was sent to had been dropped before it arrived)
+				if g, ok := vnet.W.ProxyUDPClosedAt(first.Conn); ok && g <= first.At+us(h.XP.Net.UpLatUs[1]) {
 					disturbed = true
 				}
 			}
